@@ -42,9 +42,9 @@ OBLIGATIONS = (
        G("mark_top", "OP_MARK_TOP", 5, Q, rc=RC + ["GC_Mark_Item:verif_item_stub", "GC_Recurse:verif_recurse_stub"])]
     # thorough: 4 cells in the sweep, 11-slot registry for set/mem/rem
     + [G("sweep.noown.nc4", "OP_SWEEP", 5, T, ["NO_OWNERSHIP"], nc=4, timeout=3600, mem_gb=16)]
-    + [G("set.home%d" % h, "OP_SET", 11, T, ["HOME=%d" % h], rc=RC + MS, nc=6, timeout=3600, mem_gb=16) for h in range(11)]
-    + [G("mem.home%d" % h, "OP_MEM", 11, T, ["HOME=%d" % h], nc=6, timeout=3600, mem_gb=16) for h in range(11)]
-    + [G("rem.home%d" % h, "OP_REM", 11, T, ["HOME=%d" % h, "NO_OWNERSHIP"], nc=6, timeout=3600, mem_gb=16) for h in range(11)]
+    + [G("set.home%d" % h, "OP_SET", 11, ("probe",), ["HOME=%d" % h], rc=RC + MS, nc=6, timeout=3600, mem_gb=16) for h in range(11)]
+    + [G("mem.home%d" % h, "OP_MEM", 11, T if h in (0, 5, 10) else ("probe",), ["HOME=%d" % h], nc=6, timeout=3600, mem_gb=16) for h in range(11)]
+    + [G("rem.home%d" % h, "OP_REM", 11, ("probe",), ["HOME=%d" % h, "NO_OWNERSHIP"], nc=6, timeout=3600, mem_gb=16) for h in range(11)]
 )
 AUS = ["Type_Scan.0:40", "Type_Scan.1:40", "strcmp.0:26", "memcpy.0:8", "memset.0:8", "dealloc.0:10"]
 OBLIGATIONS = list(OBLIGATIONS) + [
